@@ -157,11 +157,23 @@ fn worker(tag: u32, rx: Receiver<Cmd>, done: Sender<()>) {
     }
 }
 
-fn install_sink(out: &str) -> Arc<Mutex<std::io::BufWriter<std::fs::File>>> {
+pub fn install_sink(out: &str) -> Arc<Mutex<std::io::BufWriter<std::fs::File>>> {
+    install_sink_filtered(out, "")
+}
+
+/// Like `install_sink`, but events whose text starts with `{"ev":"<skip>` are dropped.
+pub fn install_sink_filtered(
+    out: &str,
+    skip: &'static str,
+) -> Arc<Mutex<std::io::BufWriter<std::fs::File>>> {
     let f = std::fs::File::create(out).expect("create trace");
     let w = Arc::new(Mutex::new(std::io::BufWriter::with_capacity(1 << 20, f)));
     let w2 = w.clone();
+    let skip_prefix = format!("{{\"ev\":\"{skip}");
     hook::set_sink(Some(Box::new(move |seq, tag, text| {
+        if !skip.is_empty() && text.starts_with(&skip_prefix) {
+            return;
+        }
         // text is a JSON object `{...}`; splice seq and thread tag in.
         let mut g = w2.lock().unwrap();
         let _ = write!(g, "{{\"seq\":{seq},\"t\":{tag},{}\n", &text[1..]);
